@@ -278,13 +278,66 @@ fn render_anchor(a: &Arena<Pay>, root: NodeId, existing: &[i64], stats: &mut (us
     s
 }
 
+/// An arena whose payload type is `NodeId`: every written child expression must still create a
+/// node (only the ROOT position distinguishes an existing NodeId from a value).
+fn nodeid_payload_battery(h: &mut Harness) {
+    let r = std::panic::catch_unwind(|| -> Result<(), String> {
+        let mut other: Arena<u8> = Arena::new();
+        let ids: Vec<NodeId> = (0..7u8).map(|i| other.new_node(i)).collect();
+        for round in 0..3 {
+            let mut a: Arena<NodeId> = Arena::new();
+            // some unrelated nodes so that foreign indices hit something
+            for i in 0..round {
+                a.new_node(ids[6 - i]);
+            }
+            let anchor = a.new_node(ids[0]);
+            let pre = a.new_node(ids[1]);
+            anchor.append(pre, &mut a);
+            let before = a.count();
+            let r = match round {
+                0 => tree!(&mut a, anchor => { ids[2], ids[3] => { ids[4] }, ids[5] }),
+                1 => tree!(&mut a, anchor => { ids[2] => { ids[3] => { ids[4] } }, ids[5], }),
+                _ => tree!(&mut a, anchor => { ids[2], ids[3], ids[4], ids[5] => {} }),
+            };
+            if r != anchor {
+                return Err(format!("round {}: returned {:?}, expected the given root {:?}", round, r, anchor));
+            }
+            if a.count() != before + 4 {
+                return Err(format!("round {}: 4 expressions written, count() went {} -> {}", round, before, a.count()));
+            }
+            let kids: Vec<NodeId> = anchor.children(&a).map(|c| *a[c].get()).collect();
+            let exp: Vec<NodeId> = match round {
+                0 => vec![ids[1], ids[2], ids[3], ids[5]],
+                1 => vec![ids[1], ids[2], ids[5]],
+                _ => vec![ids[1], ids[2], ids[3], ids[4], ids[5]],
+            };
+            if kids != exp {
+                return Err(format!("round {}: payloads of the root's children are {:?}, written {:?}", round, kids, exp));
+            }
+            let all: Vec<NodeId> = anchor.descendants(&a).skip(1).map(|c| *a[c].get()).collect();
+            if all != vec![ids[1], ids[2], ids[3], ids[4], ids[5]] {
+                return Err(format!("round {}: pre-order payloads {:?}", round, all));
+            }
+        }
+        Ok(())
+    });
+    h.literals += 3;
+    h.nodes += 12;
+    match r {
+        Ok(Ok(())) => {}
+        Ok(Err(e)) => h.findings.push((usize::MAX, "nodeid-payload".into(), e)),
+        Err(_) => h.findings.push((usize::MAX, "nodeid-payload-panic".into(), "tree! on an Arena<NodeId> panicked".into())),
+    }
+}
+
 include!(env!("IXV_GENERATED"));
 
 fn main() {
     let mut h = Harness::default();
     run_all(&mut h);
+    nodeid_payload_battery(&mut h);
     for (i, sig, detail) in &h.findings {
-        println!("FINDING literal={} sig=macro/{} detail={}", i, sig, detail.replace('\n', " "));
+        println!("FINDING literal={} sig=macro/{} detail={}", if *i == usize::MAX { "nodeid-battery".to_string() } else { i.to_string() }, sig, detail.replace('\n', " "));
     }
     println!(
         "{{\"literals\":{},\"nodes\":{},\"distinct_shapes\":{},\"new_root_form\":{},\"id_root_form\":{},\"roots_in_recycled_slot\":{},\"max_depth\":{},\"max_width\":{},\"findings\":{}}}",
